@@ -7,8 +7,8 @@ import (
 	"time"
 
 	"github.com/paulsonkoly/chess-3/board"
-	"github.com/paulsonkoly/chess-3/move"
 
+	"verif/harness/conv"
 	"verif/harness/eng"
 	"verif/harness/ev"
 	"verif/harness/gen"
@@ -59,7 +59,7 @@ func history(r *ev.Run, lc *ev.Local, kind string, start ref.Pos, startpos bool,
 		}
 		raw := cur.Make(m)
 		nx := raw.Normalised()
-		b.MakeMove(move.Move(m))
+		b.MakeMove(conv.M(m))
 		key := nx.Key()
 		counts[key]++
 		pk := placementOf(key)
